@@ -8,5 +8,13 @@ for d in /verif/seeded/*/; do
   out=$(cd /tmp && PYTHONPATH=$root/src timeout 180 /venv/bin/python -W ignore "$d/demo.py" 2>&1); rc=$?
   if [ $rc -ne 0 ]; then echo "== $id exit=$rc"; echo "$out" | tail -3 | cut -c1-250; fail=$((fail+1)); fi
 done
+# ... and the reproductions of the defects repaired after the third hunt (written by the hunters, kept under /verif/repaired):
+# each exits 1 while its defect is present and 0 on the repaired tree.
+for r in /verif/repaired/*/*.py; do
+  [ -e "$r" ] || continue
+  n=$((n+1))
+  out=$(cd /tmp && PYTHONPATH=$root/src timeout 180 /venv/bin/python -W ignore "$r" 2>&1); rc=$?
+  if [ $rc -ne 0 ]; then echo "== $r exit=$rc"; echo "$out" | tail -3 | cut -c1-250; fail=$((fail+1)); fi
+done
 echo "demonstrations: $n, failing on the unchanged tree: $fail"
 [ $fail -eq 0 ]
